@@ -8,6 +8,7 @@ Expressions are tuples:
   ('if', c, a, b)                numeric if-then-else (c logical)
   ('count', [l...]) ('numberof', e0, [e...])
   ('pl', slopes, breakpoints, j) piecewise-linear term of variable j (AMPL <<bp; sl>> x)
+  ('dv', k)                      defined variable (NL common expression) k of Model.defvars (writer only; no reference semantics)
 logical:
   ('T',) ('F',) ('lt'|'le'|'eq'|'ge'|'gt'|'ne', a, b) ('not', l) ('or', a, b) ('and', a, b)
   ('forall', [l...]) ('exists', [l...]) ('implies', c, t, e) ('iff', a, b)
@@ -47,7 +48,7 @@ def wexpr(e, out):
     k = e[0]
     if k == 'n':
         out.append('n' + fnum(e[1]))
-    elif k == 'v':
+    elif k == 'v' or k == 'vraw':
         out.append('v%d' % e[1])
     elif k in ('T', 'F'):
         out.append('n1' if k == 'T' else 'n0')
@@ -194,6 +195,7 @@ class Model:
         self.cons = []    # dict(lb, ub, lin{j:c}, nl, name)
         self.lcons = []   # dict(expr, name)
         self.suffixes = []  # dict(name, kind 0 var/1 con/2 obj/3 prob, float(bool), vals{idx:val})
+        self.defvars = []   # dict(lin{j:c}, nl): AMPL defined variables, referenced as ('dv', k)
         self.x0 = {}
         self.dvars = []   # C19 extension: defined variables dict(lin{j:c}, nl, name); referenced as ('dv', k)
         self.pi0 = {}
@@ -268,7 +270,7 @@ class Model:
             if e[0] == 'v':
                 return ('v', pos[e[1]])
             if e[0] == 'dv':
-                return ('v', n + e[1])
+                return ('vraw', n + e[1])
             if e[0] == 'pl':
                 return ('pl', e[1], e[2], pos[e[3]])
             if e[0] in ('n', 'T', 'F'):
@@ -299,7 +301,22 @@ class Model:
         L.append(' %d %d %d %d %d' % (h['nbv'], h['niv'], h['nlvbi'], h['nlvci'], h['nlvoi']))
         L.append(' %d %d' % (nzc, nzo))
         L.append(' 0 0')
-        L.append(' %d 0 0 0 0' % len(getattr(self, 'dvars', [])))
+        # two builders added defined variables independently: Model.dvars (C19: counted as 'in both', V segments
+        # written just before the C segments) and Model.defvars (C04: counted as 'in constraints', V segments here).
+        # A model uses at most one of the two lists; ('dv', k) indexes whichever is non-empty.
+        ndv = len(getattr(self, 'defvars', []))
+        if getattr(self, 'dvars', []):
+            assert not ndv, 'use either Model.dvars or Model.defvars'
+            L.append(' %d 0 0 0 0' % len(self.dvars))
+        else:
+            L.append(' 0 %d 0 0 0' % ndv if ndv else ' 0 0 0 0 0')
+        for k, dv in enumerate(getattr(self, 'defvars', [])):
+            L.append('V%d %d 0' % (n + k, len(dv['lin'])))
+            for j in sorted(dv['lin'], key=lambda j: pos[j]):
+                L.append('%d %s' % (pos[j], fnum(dv['lin'][j])))
+            out = []
+            wexpr(remap(dv['nl']) if dv.get('nl') is not None else ('n', 0), out)
+            L += out
         # NL requires nonlinear constraints first: we keep model order but then all cons must be
         # either all-nonlinear-first; simplest: reorder so that nonlinear cons come first
         corder = [i for i, c in enumerate(self.cons) if c['nl'] is not None] + [i for i, c in enumerate(self.cons) if c['nl'] is None]
